@@ -562,7 +562,7 @@ Proof.
   - intros ty. mg. apply (proj1 (wc_cmp_grows codata (fdname d) lg (fdbody d))).
 Qed.
 
-(* the definitions that come first (fix <commitmain>: when main is called, the entry point under a fresh label
+(* the definitions that come first (fix f929eb7: when main is called, the entry point under a fresh label
    and main compiled like any other definition): their names are main and generated labels, in some order *)
 Lemma compile_main_group_names : forall lg called d codata ul g ul',
   compile_main_group lg called d codata ul = Ok (g, ul') ->
